@@ -34,6 +34,11 @@ comparison callback is a consistent ordering.  Decided:
                look-up feeding `Set_gfw(master_ptr->gfw)` is the exact-entry search (master_bsearch), not the search that
                returns the element's primary master (master_bsearch_primary), whose weight differs for valence states such as
                S(-2) or C(-4)
+  C15.mixweights  "scaling the water mass ... / mixing": add_mix weights the intensive properties of the mixed solutions by their
+               share of the water: every value assigned to the weight handed to add_solution (intensive_water) is of degree 0 in
+               the water masses of the solutions (a water-weighted amount divided by a water-weighted sum, accumulators
+               classified from their own updates); divided by a plain sum of fractions the weights scale with the water mass and
+               temperature / pressure of a mix depend on how much water the solutions hold
 Not decided: unit conversion, density iteration, extensive/intensive scaling, mixing order, repeated definitions (all need the
 numerical result of two runs).
 """
@@ -395,7 +400,87 @@ def gfw_rule(P, R):
         R.anchor_missing("C15.gfw", "convert_units: the default formula-weight look-up was not found")
 
 
+def mixweights_rule(P, R):
+    from .. import ratfun as RF
+    from fractions import Fraction
+    R.rule("C15.mixweights", "add_mix: the water-share weights passed to add_solution are of degree 0 in the water masses", minimum=2)
+    fs = [f for f in P.fns_named("Phreeqc::add_mix")]
+    f = None
+    for g in fs:
+        if any(y[0] == "Ref" and len(y) > 3 and y[3] == "intensive_water" for y in T.walk(g["body"])):
+            f = g
+    if f is None:
+        R.anchor_missing("C15.mixweights", "add_mix with the water-share weight `intensive_water` not found")
+        return
+    where = dict(file=f["file"], function=f["q"])
+    deg = {}
+
+    def conv(n):
+        n = T.strip_casts(n)
+        if n[0] == "Lit":
+            return RF.Rat.const(Fraction(str(n[3]).rstrip("fFlL")))
+        if n[0] == "Call" and T.callee_name(n) == "Get_mass_water":
+            return RF.Rat.sym("W")
+        if n[0] == "Ref" and n[2] in ("local", "param"):
+            return RF.Rat.sym(n[3])
+        if n[0] == "Member":
+            return RF.Rat.sym(T.text(n).replace(" ", ""))
+        if n[0] == "Bin" and n[2] in ("+", "-", "*", "/"):
+            a, b = conv(n[3]), conv(n[4])
+            return a + b if n[2] == "+" else a - b if n[2] == "-" else a * b if n[2] == "*" else a / b
+        if n[0] == "Un" and n[2] == "-":
+            return -conv(n[3])
+        raise RF.NotRational(T.text(n)[:40])
+
+    def degree(r):
+        sc = r.scaled("W", 2) if "W" in r.symbols() else r
+        for nm, d in deg.items():
+            if d and nm in sc.symbols():
+                sc = sc.scaled(nm, 2 ** d)
+        for k in (0, 1, -1, 2):
+            if sc.same(r * RF.Rat.const(Fraction(2) ** k)):
+                return k
+        return None
+    # two passes: accumulators and plain definitions first, then the weights
+    assigns = [x for x in T.walk(f["body"]) if x[0] == "Bin" and x[2] in ("=", "+=") and T.strip_casts(x[3])[0] == "Ref"]
+    for _ in range(3):
+        for x in assigns:
+            nm = T.strip_casts(x[3])[3]
+            if nm == "intensive_water":
+                continue
+            try:
+                r = conv(x[4])
+            except RF.NotRational:
+                continue
+            if not r.symbols():
+                continue            # initialisation with a constant
+            d = degree(r)
+            if d is not None:
+                deg[nm] = d
+    n = 0
+    for x in assigns:
+        if T.strip_casts(x[3])[3] != "intensive_water":
+            continue
+        try:
+            r = conv(x[4])
+        except RF.NotRational:
+            continue
+        if not r.symbols():
+            continue
+        n += 1
+        d = degree(r)
+        inst = "intensive_water@%d" % x[1]
+        if d == 0:
+            R.ok("C15.mixweights", inst, "degree 0 in the water masses: %s" % T.text(x[4])[:50])
+        else:
+            R.violation("C15.mixweights", inst, "`intensive_water = %s` has degree %s in the water masses of the mixed solutions: the weights no longer sum to one when the solutions hold "
+                        "other than 1 kg of water, so temperature, pressure and the starting estimates of a MIX scale with the water mass" % (T.text(x[4])[:60], d), line=x[1], **where)
+    if n < 2:
+        R.anchor_missing("C15.mixweights", "add_mix: only %d assignments of the water-share weight found" % n)
+
+
 def run(P, R, tier):
+    mixweights_rule(P, R)
     gfw_rule(P, R)
     addsol_rule(P, R)
     addmul_rule(P, R)
